@@ -32,7 +32,7 @@ FLOORS = {"quick": {"decisions": 40000, "back_to_back": 15000, "idle_then_arriva
                        "many_to_one_cases": 3000, "monitor_samples_strict": 100000, "monitor_samples_coincident": 4000,
                        "kind_SP": 2000, "kind_WFQ": 2000, "kind_VC": 2000, "kind_DRR": 2000, "kind_RR": 2000,
                        "kind_WRR": 2000}}
-KEYS = tuple(FLOORS["quick"].keys()) + ("downstream_transmissions", "fractional_size_cases")
+KEYS = tuple(FLOORS["quick"].keys()) + ("downstream_transmissions", "fractional_size_cases", "monitor_flag_reassignments")
 # floors for the situations added with the later rounds of seeded changes (evidence that they were really exercised)
 FLOORS["quick"].update({'echoed_arrivals_inside_next_hop_put': 4000, 'late_arrivals_inside_an_instant': 3000, 'store_as_next_hop_cases': 150})
 FLOORS["thorough"].update({'echoed_arrivals_inside_next_hop_put': 20000, 'late_arrivals_inside_an_instant': 15000, 'store_as_next_hop_cases': 750})
@@ -62,7 +62,7 @@ def gen_case(rng, i):
             t.insert(rng.randrange(len(t) + 1), rng.choice(t))
     if rng.random() < 0.3:
         offs = rng.random() < 0.6
-        case["monitor"] = {"included": rng.random() < 0.5,
+        case["monitor"] = {"flip_at": (rng.choice([0.9017, 2.3031, 5.7013]) if rng.random() < 0.3 else None), "included": rng.random() < 0.5,
                            "samples": [rng.choice([0.37, 0.61, 0.113]) if offs else rng.choice([0.25, 0.5, 0.125, 1])
                                        for _ in range(80)]}
     return case
@@ -151,7 +151,8 @@ def time_rules(run, stats, bad):
 def monitor_rules(run, stats, bad):
     case = run.case
     mon = run.mon
-    inc = case["monitor"]["included"]
+    inc0 = case["monitor"]["included"]
+    flip_at = case["monitor"].get("flip_at")
     arrived = {a[3]: a for a in run.arr}
     start = {d[3]: d[2] for d in run.dec}
     end = {d[3]: d[2] for d in run.dep}
@@ -161,6 +162,7 @@ def monitor_rules(run, stats, bad):
         pk = [u for u, a in arrived.items() if a[4] == f]
         for k, (cnt, byt) in enumerate(zip(mon.sizes[f], mon.byte_sizes[f])):
             tau = tau + samples[k % len(samples)]
+            inc = inc0 if flip_at is None or tau < flip_at else (not inc0)       # (the public flag was reassigned at flip_at)
             waiting = [u for u in pk if arrived[u][2] <= tau and start.get(u, 1e300) > tau]
             serving = [u for u in pk if start.get(u, 1e300) <= tau < end.get(u, 1e300)]
             exp_n = len(waiting) + (len(serving) if inc else 0)
@@ -189,7 +191,14 @@ def run_case(case, stats):
         if case.get("echo"):
             total += 3 * len(case["arrivals"]) * max(a["size"] for a in case["arrivals"])     # (bound on the echoed packets)
         horizon = max(a["t"] for a in case["arrivals"]) + total * 8.0 / case["cfg"]["rate"] + 5
-    run = vs.Run(case, monitor=case.get("monitor")).go(horizon)
+    run = vs.Run(case, monitor=case.get("monitor"))
+    if "monitor" in case and case["monitor"].get("flip_at") is not None:
+        def flip(env=run.net.env, mon=run):
+            yield env.timeout(case["monitor"]["flip_at"])
+            run.mon.service_included = not run.mon.service_included
+            stats["monitor_flag_reassignments"] += 1
+        run.net.env.process(flip())
+    run.go(horizon)
     if not run.viol:
         time_rules(run, stats, run.bad)
     if not run.viol and run.mon is not None:
